@@ -197,7 +197,7 @@ class Check(PropCheck):
             nm = rng.choice(names)
             if rng.random() < 0.15:
                 nm = nm.upper() if rng.random() < 0.5 else nm.capitalize()
-            val = rng.choice(VALUES + [None, 'true', 'False', '0'])
+            val = rng.choice(VALUES + [None, 'true', 'False', '0', 'MiXed Case'])
             if r < 0.22:
                 it = ['sa', nm, val]
             elif r < 0.40:
